@@ -377,6 +377,42 @@ def check_timezones(sers):
     return runs, fail
 
 
+def check_concurrent_encoders(sers, max_k):
+    """the serializer objects are process-wide singletons shared by all threads: two threads encoding at the same time (one of them inside a default() fall-back for a
+    value the library cannot encode natively) must each get the encoding of their OWN value - explored with the line-granular two-thread schedules of replay/sched.py"""
+    import replay.sched as sched
+    runs, fail = 0, None
+    pairs = [([1, 2, 2 ** 70 + 12345], 7), ({"k": (1, {2, 3})}, "text"), ([uuid.UUID(int=5), 2 ** 80], [1.5, None])]
+    for name, ser in sers:
+        for va, vb in pairs:
+            if fail:
+                break
+            try:
+                ea, eb = ser.loads(ser.dumps(va)), ser.loads(ser.dumps(vb))
+            except Exception:      # noqa
+                continue
+
+            def make(ser=ser, va=va, vb=vb):
+                return [lambda: ser.dumps(va), lambda: ser.dumpsCall("obj", "meth", [vb], {})], None
+
+            def oracle(ctx, workers, ser=ser, name=name, va=va, vb=vb, ea=ea, eb=eb):
+                desc = {"serializer": name, "values": [repr(va)[:80], repr(vb)[:80]], "position": "two threads encoding concurrently"}
+                if workers[0].error is not None or workers[1].error is not None:
+                    return dict(desc, violated="concurrent encoding failed: %r / %r" % (workers[0].error, workers[1].error))
+                try:
+                    ga = ser.loads(workers[0].result)
+                    gb = ser.loadsCall(workers[1].result)[2][0]
+                except Exception as x:      # noqa
+                    return dict(desc, violated="the bytes a thread produced do not decode: %r" % (x,))
+                if not same(ga, ea) or not same(gb, eb):
+                    return dict(desc, violated="a thread's encoding decodes to %r / %r instead of its own value %r / %r" % (ga, gb, ea, eb))
+                return None
+            n, bad = sched.explore([serializers.__file__], make, oracle, max_k=max_k)
+            runs += n
+            fail = fail or bad
+    return runs, fail
+
+
 def main(mode):
     t0 = time.time()
     rnd = random.Random(1)
@@ -403,6 +439,9 @@ def main(mode):
     if fail is None:
         tz_runs, fail = check_timezones(sers)
         runs += tz_runs
+    if fail is None:
+        c_runs, fail = check_concurrent_encoders(sers, 12 if mode != "thorough" else 40)
+        runs += c_runs
     if fail is None:
         w = Wire()
         try:
